@@ -63,6 +63,11 @@ type IndexedState struct {
 	cachedRules map[string]*Rule
 	cacheMutex  sync.Mutex
 
+	// cacheGen counts the invalidations of cachedRules (also
+	// protected by cacheMutex).  A rule that was read from the
+	// state before an invalidation must not be cached after it.
+	cacheGen uint64
+
 	addHook AddHookFn
 
 	remHook RemHookFn
@@ -274,7 +279,10 @@ func extractTermsAux(ctx *Context, x interface{}, terms StringSet, depth int) {
 
 func (s *IndexedState) Add(ctx *Context, id string, x Map) (string, error) {
 	Log(DEBUG, ctx, "IndexedState.Add", "state", s.Name, "factx", x, "id", id)
+	// The cached rule is dropped before and after the update: an event
+	// that read the former rule in between must not cache it.
 	s.uncacheRule(id)
+	defer s.uncacheRule(id)
 	var js []byte
 	id, err := func() (string, error) {
 		// The unlock is deferred so that a panic below cannot
@@ -475,7 +483,10 @@ func (s *IndexedState) Rem(ctx *Context, id string) (bool, error) {
 
 func (s *IndexedState) rem(ctx *Context, id string) (bool, error) {
 	Log(DEBUG, ctx, "IndexedState.rem", "name", s.Name, "id", id)
+	// The cached rule is dropped before and after the update: an event
+	// that read the former rule in between must not cache it.
 	s.uncacheRule(id)
+	defer s.uncacheRule(id)
 
 	// Currently we don't return an error if the fact isn't found.
 	// ToDo: Reconsider.  For example, maybe have an additional
@@ -827,6 +838,11 @@ func (s *IndexedState) FindCachedRules(ctx *Context, event Map) (map[string]*Rul
 	timer := NewTimer(ctx, "IndexedState.FindCachedRules")
 	defer timer.Stop()
 
+	// The rules are read from the state under its lock and cached
+	// after that lock has been released: a rule that was replaced or
+	// removed in between must not end up in the cache.
+	gen := s.cacheGeneration()
+
 	rules, err := s.doFindRules(ctx, event)
 	if err != nil {
 		return nil, err
@@ -842,7 +858,7 @@ func (s *IndexedState) FindCachedRules(ctx *Context, event Map) (map[string]*Rul
 				return nil, err
 			}
 			rule.Id = id
-			acc[id] = s.cacheRule(id, rule)
+			acc[id] = s.cacheRule(id, rule, gen)
 		}
 	}
 	return acc, nil
@@ -855,14 +871,24 @@ func (s *IndexedState) cachedRule(id string) *Rule {
 	return rule
 }
 
-// cacheRule remembers the given rule unless another request did so
-// in the meantime.  Returns the cached rule.
-func (s *IndexedState) cacheRule(id string, rule *Rule) *Rule {
+func (s *IndexedState) cacheGeneration() uint64 {
 	s.cacheMutex.Lock()
-	if cached, have := s.cachedRules[id]; have {
-		rule = cached
-	} else {
-		s.cachedRules[id] = rule
+	gen := s.cacheGen
+	s.cacheMutex.Unlock()
+	return gen
+}
+
+// cacheRule remembers the given rule unless another request did so
+// in the meantime, or the cache was invalidated since the given
+// generation was read.  Returns the rule to use.
+func (s *IndexedState) cacheRule(id string, rule *Rule, gen uint64) *Rule {
+	s.cacheMutex.Lock()
+	if s.cacheGen == gen {
+		if cached, have := s.cachedRules[id]; have {
+			rule = cached
+		} else {
+			s.cachedRules[id] = rule
+		}
 	}
 	s.cacheMutex.Unlock()
 	return rule
@@ -871,11 +897,13 @@ func (s *IndexedState) cacheRule(id string, rule *Rule) *Rule {
 func (s *IndexedState) uncacheRule(id string) {
 	s.cacheMutex.Lock()
 	delete(s.cachedRules, id)
+	s.cacheGen++
 	s.cacheMutex.Unlock()
 }
 
 func (s *IndexedState) uncacheRules() {
 	s.cacheMutex.Lock()
 	s.cachedRules = make(map[string]*Rule)
+	s.cacheGen++
 	s.cacheMutex.Unlock()
 }
